@@ -20,7 +20,7 @@ RANDOM_INITS = ["uniform_", "normal_", "xavier_uniform_", "xavier_normal_", "kai
 def gen_cases(tier, seed):
     rng = gen.rng_for(seed, "c15", tier)
     cases = []
-    reps = 1 if tier == "quick" else 12
+    reps = 1 if tier == "quick" else 60
     for rep in range(reps):
         for name in RANDOM_INITS + ["constant_", "ones_", "zeros_"]:
             for si, shp in enumerate(SHAPES):
